@@ -1078,7 +1078,7 @@ func TestVerif_C18_Race(t *testing.T) {
 	if env.Tier != "thorough" {
 		t.Skip("VERIF_TIER != thorough")
 	}
-	rounds := 3
+	rounds := 12
 	for round := 0; round < rounds; round++ {
 		c18RaceRound(t, env.Seed+uint64(round))
 	}
@@ -1090,7 +1090,7 @@ func c18RaceRound(t *testing.T, seed uint64) {
 	rec := &c18Rec{}
 	root := vh.NewRng(seed ^ 0xc18ace)
 	const goroutines = 4
-	const opsEach = 120
+	const opsEach = 250
 	var wg sync.WaitGroup
 	stopEvents := make(chan struct{})
 	errs := make(chan string, 64)
